@@ -8,18 +8,19 @@ def _opseq(prop, rule, qdepth=3, tdepth=4, extra_assume=(), qdl=300, tdl=1500):
 
 CHECKS["C01"] = _opseq("C01", "BFS over histories of {load, refine*, update, merge, clear, setcoef, begin, deliver, finish} from every configuration of the lattice; "
                        "in every state evaluate/evaluateBatch/evaluateFast at every loaded point are compared with the reference map of supplied values "
-                       "(local polynomial grids only when the reference hierarchy says every loaded point has all parents); the macro transition 'round' (refine + load) reaches multi-round adaptive histories", qdepth=4, tdepth=5)
+                       "(local polynomial grids only when the reference hierarchy says every loaded point has all parents); the macro transition 'round' (refine + load) reaches multi-round adaptive histories; lattice: every family in 1-D, 2-D and 3-D, 1-2 outputs, local orders -1..4, a 12 033-point wavelet grid", qdepth=4, tdepth=5)
 CHECKS["C04"] = _opseq("C04", "BFS over histories incl. pending refinement, merge, partial construction, coefficient overwrite; in every state all documented routes "
                        "(evaluate, weights.values, coefficients.basis, batch rows, sparse vs dense, support radius, integrate routes, differentiate routes) are compared; plus, for 3-D local polynomial configurations, "
-                       "every pair of user-chosen samples of the depth-3 grid delivered as one batch to a depth-1 grid under construction (2346 pairs per configuration)", qdepth=3, tdepth=4)
+                       "every pair of user-chosen samples of the depth-3 grid delivered as one batch to a depth-1 grid under construction (2346 pairs per configuration); sparse vs dense matrices and the GetNZ count for batches of 32, 64 and 33 points; "
+                       "weight buffers handed in by the caller are overwritten completely; swap experiment (affine values, k zero-coefficient leaves removed, k new nodes delivered one at a time: anything cached per grid and validated by a count is stale)", qdepth=3, tdepth=4)
 CHECKS["C07"] = _opseq("C07", "BFS over interleavings of refinement (all strategies, tolerances, outputs, scale corrections through both overloads), update, load/reload, merge, clear; "
-                       "invariants (duplicate-free, disjoint, value attachment by coordinate) in every state, step relations on every transition, reference selection of the classic criterion", qdepth=4, tdepth=5)
+                       "invariants (duplicate-free, disjoint, value attachment by coordinate) in every state, step relations on every transition, reference selection of the classic criterion for local polynomial and wavelet grids (coordinate-based reference hierarchies) incl. level limits and tolerance 0", qdepth=4, tdepth=5)
 CHECKS["C08"] = _opseq("C08", "BFS over histories that introduce, keep, replace and clear level limits through make, update, every refinement entry point and candidate requests; "
-                       "every loaded/needed/candidate point is checked against the 1-D level limit; -1 entries are compared with a large limit; every call runs under a watchdog",
+                       "every loaded/needed/candidate point is checked against the 1-D level limit; -1 entries are compared with a large limit; every call runs under a watchdog; grids that fill the whole box of their limits; a refinement call is bound by the loaded and delivered points only (it replaces a pending refinement)",
                        extra_assume=["a limit vector is only trusted when it dominates the levels already present (DESIGN C08 scope decision)"])
 CHECKS["C06"] = _opseq("C06", "BFS over histories (incl. empty-values grids, zero outputs, pending refinement, active construction with parked samples, merge, setcoef, update without growth); "
-                       "in every state: write/read through stream and file, binary and ASCII, observation and bytes compared; bisimulation: every alphabet op applied to the original and to the restored grid",
+                       "in every state: write/read through stream and file, binary and ASCII, observation and bytes compared; bisimulation: every alphabet op applied to the original and to the restored grid; the observation includes the basis functions at probes; lattice incl. zero-output grids of every table layout, custom-tabulated rule objects with ordinary / empty / blank-led descriptions, unbounded rules with b <= a, 3-D grids",
                        qdepth=2, tdepth=3)
 CHECKS["C11"] = _opseq("C11", "BFS over histories; in every state: copy constructor, assignment, copyGrid (both overloads), self-assignment, every output sub-range incl. the documented out-of-range end; "
-                       "every alphabet op applied to copy and source in turn: the other side (observation and binary image) must not change and both must end equal",
+                       "every alphabet op applied to copy and source in turn: the other side (observation and binary image) must not change and both must end equal; copies onto used destinations; range copies followed by loading the needed values; range copies under construction (deliveries, candidate sets)",
                        qdepth=2, tdepth=3)
